@@ -151,7 +151,8 @@ type VC struct {
 	assertsSeen       int
 	assertHit         map[string]bool
 	foldedCases       int
-	sliceDefs         map[string]*Term // named constants defined as mk-slice(...): their components fold
+	callSites         map[string][]token.Pos // per callee name: call positions of the function under verification, in source order
+	sliceDefs         map[string]*Term       // named constants defined as mk-slice(...): their components fold
 	tableEpoch        int
 }
 
